@@ -157,7 +157,7 @@ pub fn compare(expect: &[(String, Vec<(String, Vec<u8>)>)], got: &[(String, Vec<
     Ok(())
 }
 
-pub fn run_case(workdir: &str, seed: u64, _model: &mut Option<crate::model::Model>, rep: &mut Report, case: &Case, tag: &str) {
+pub fn run_case(workdir: &str, seed: u64, model: &mut Option<crate::model::Model>, rep: &mut Report, case: &Case, tag: &str) {
     let dir = PathBuf::from(workdir).join(format!("c01_{tag}"));
     let _ = std::fs::remove_dir_all(&dir);
     let mut prng = Rng::new(seed, 101, 0);
@@ -187,6 +187,25 @@ pub fn run_case(workdir: &str, seed: u64, _model: &mut Option<crate::model::Mode
                 Ok(Ok(got)) => {
                     if let Err((sig, msg)) = compare(&expect, &got) {
                         rep.oracle_fail(&sig, &msg, case.desc.clone());
+                    }
+                }
+            }
+            // The independent Lean decoder (C02) on the same archive: here only counted — the
+            // oracle of C01 stays extract == input; a decoder disagreement is C02's failure.
+            if let Some(m) = model.as_mut() {
+                let bytes = std::fs::read(&out).unwrap_or_default();
+                if bytes.len() > crate::props::c02::MAX_ARCHIVE_BYTES {
+                    rep.count("lean_skipped_too_big");
+                } else {
+                    match crate::props::c02::lean_decode(m, &bytes) {
+                        Ok(a) => {
+                            rep.count("decoded_by_lean");
+                            rep.add("lean_ms_total", a.lean_ms as u64);
+                            crate::props::c02::count_branches(rep, &a);
+                            rep.count(if crate::props::c02::compare_input(&a, &expect).is_ok() { "decoder_eq_input" } else { "decoder_ne_input" });
+                            rep.count(if a.violations.is_empty() { "decoder_violations_empty" } else { "decoder_violations_nonempty" });
+                        }
+                        Err(_) => rep.count("decoder_rejects"),
                     }
                 }
             }
